@@ -223,6 +223,21 @@ def build_family(tier, seed):
         name = f"tensordot/{sym}{'-generic' if generic else ''}"
         groups[name] = ([dict(body="body_tensordot", spec=c, validate=(i % 40 == 0), sample=(i % 500 == 0), seed=seed + i)
                          for i, c in enumerate(cases)], exhaustive and all(c["exhaustive"] for c in cases))
+    # outer products with a rank-0 array (as returned by a full contraction with preserve_array=True), in both operand orders
+    for sym, generic in syms:
+        tabs = fam.index_tables(sym, 2, ("graded",))
+        two = [t for t in tabs if len(t) == 2][:2]
+        r0 = []
+        zero = gs.identity(sym)
+        scal = dict(sym=sym, generic=generic, fermionic=False, indices=(), charge=zero, present=((),), phases=(), oddpos=None, name="s")
+        for nd in (1, 2, 3):
+            arrs = list(fam.array_specs(sym, nd, two, generic=generic, sparsity_threshold=3, rng=rng))
+            arrs, _ = fam.thin(arrs, 25 if not thorough else 250, seed + 77 + nd)
+            for k, a in enumerate(arrs):
+                for order in ("as", "sa"):
+                    A, B = (dict(a, name="a"), dict(scal, name="b")) if order == "as" else (dict(scal, name="a"), dict(a, name="b"))
+                    r0.append(dict(a=A, b=B, axes=(0 if k % 2 else ((), ())), modes=("blockwise", "fused", "auto"), preserve=(True, False), exhaustive=False, complex=False))
+        groups[f"tensordot-rank0-outer/{sym}{'-generic' if generic else ''}"] = ([dict(body="body_tensordot", spec=c, seed=seed + i) for i, c in enumerate(r0)], False)
     # complex entries, int / negative axes, autoray route: a thinner slice of the Z2/U1 family
     for sym in ("Z2", "U1"):
         tabs = fam.index_tables(sym, 2, ("graded",))
